@@ -39,13 +39,14 @@ DocTable == <<
   \*    specified - but it is still a function of the arguments: the same bytes every time)
   Obj(<<Mem(ca, N1), Mem(cb, N2), Mem(cc, N1), Mem(cd, N2), Mem(ce, N1), Mem(ca, N2)>>) >>
 \* RFC 6902 patches: operation sequences, or Bad
-P(s) == [ok |-> TRUE, ops |-> s]
+P(s) == [ok |-> TRUE, ops |-> s, dc |-> FALSE]
+PX(s) == [ok |-> TRUE, ops |-> s, dc |-> TRUE]     \* a patch whose RESULT the reference does not define (purity still is)
 PatchTable == <<
   P(<< [op |-> "add", path |-> <<47,99>>, value |-> N1] >>),                                              \* 1 add /c 1
   P(<< [op |-> "copy", from |-> <<47,97>>, path |-> <<47,100>>],
        [op |-> "test", path |-> <<47,100>>, value |-> Arr(<<N1, Null>>)] >>),                             \* 2 copy /a -> /d ; test /d [1,null]
   P(<< [op |-> "remove", path |-> <<47,122,122>>] >>),                                                   \* 3 remove /zz (fails)
-  [ok |-> FALSE, ops |-> <<>>],                                                                           \* 4 [{"op":
+  [ok |-> FALSE, ops |-> <<>>, dc |-> FALSE],                                                                           \* 4 [{"op":
   P(<< [op |-> "add", path |-> <<47,97,47,45>>, value |-> Obj(<<Mem(<<107>>, Arr(<<N1, N2>>))>>)],
        [op |-> "move", from |-> <<47,97,47,48>>, path |-> <<47,109>>] >>),                                \* 5 add /a/- {"k":[1,2]} ; move /a/0 -> /m
   P(<< [op |-> "test", path |-> <<47,97>>, value |-> N2],
@@ -62,7 +63,9 @@ PatchTable == <<
   P(<< [op |-> "add", path |-> <<47,108>>, value |-> Arr(<<>>)],
        [op |-> "add", path |-> <<47,108,47,45>>, value |-> Num(<<49,101,52,48,48>>)],
        [op |-> "add", path |-> <<47,111>>, value |-> Obj(<<Mem(<<110>>, N1)>>)],
-       [op |-> "move", from |-> <<47,111,47,110>>, path |-> <<47,109>>] >>) >>                            \* 11 later operations edit INSIDE values an earlier operation of
+       [op |-> "move", from |-> <<47,111,47,110>>, path |-> <<47,109>>] >>),
+  PX(<< [op |-> "test", path |-> <<47,99>>, nov |-> TRUE],
+        [op |-> "add", path |-> <<47,113>>, value |-> N1] >>) >>                                          \* 12 a test operation WITHOUT a value member (what it compares with is not stated)                            \* 11 later operations edit INSIDE values an earlier operation of
                                                                                                           \*    the same patch inserted: add /l [] ; add /l/- 1e400 ; add /o {"n":1} ; move /o/n -> /m
 \* merge patches
 MergeTable == <<
@@ -83,6 +86,7 @@ SmallCalls ==
   \cup { C3("Apply", 1, 2, 2), C3("Apply", 4, 1, 1), C3("ApplyIndent", 1, 5, 1), C3("Apply", 1, 7, 1) }
   \cup { C3("Apply", 1, 2, 3), C3("Apply", 1, 8, 3) }      \* under the limit: a copy that fits; a copy followed by a failing test
   \cup { C3("Apply", 1, 9, 1), C3("Apply", 1, 10, 1), C3("Apply", 3, 10, 2), C3("Apply", 1, 11, 1), C3("Apply", 3, 11, 1) }
+  \cup { C3("Apply", 1, 12, 1), C3("Apply", 2, 12, 2) }
   \cup { C2("CreateMergePatch", 6, 7), C2("CreateMergePatch", 7, 6), C2("Equal", 6, 7) }
   \cup { C3("Apply", 8, 1, 1), C3("ApplyIndent", 8, 5, 1) }
   \cup { C2("DecodePatch", 4, 0), C2("DecodePatch", 2, 0) }
@@ -92,7 +96,7 @@ SmallCalls ==
 FullCalls == SmallCalls
   \cup { C3("Apply", d, p, o) : d \in {1, 2, 3, 5}, p \in {1, 2, 3, 5, 6}, o \in {1, 2} }
   \cup { C3("ApplyIndent", d, p, 1) : d \in {1, 2, 5}, p \in {1, 2} }
-  \cup { C2("DecodePatch", p, 0) : p \in 1..11 } \cup { C2("MergePatch", 6, 1), C2("MergePatch", 7, 2) } \cup { C3("Apply", 2, 7, 1), C3("Apply", 5, 7, 2) }
+  \cup { C2("DecodePatch", p, 0) : p \in 1..12 } \cup { C2("MergePatch", 6, 1), C2("MergePatch", 7, 2) } \cup { C3("Apply", 2, 7, 1), C3("Apply", 5, 7, 2) }
   \cup { C2("MergePatch", d, m) : d \in {1, 3, 4, 5}, m \in 1..4 }
   \cup { C2("MergeMergePatches", m, n) : m \in {1, 2}, n \in 1..4 }
   \cup { C2("CreateMergePatch", d, e) : d \in {1, 3, 5, 2}, e \in {1, 3, 5} }
@@ -113,6 +117,7 @@ Result(c) ==
          LET d == DocTable[c.a]  p == PatchTable[c.b] IN
          IF ~p.ok THEN Fail("BadPatch")
          ELSE IF d.t = "malformed" THEN Fail("BadDoc")
+         ELSE IF p.dc THEN Fail("dc")
          ELSE IF ~NoDupKeys(d) THEN Fail("dc")
          ELSE LET r == RunAll(d, p.ops, Opt(c.o), [lo |-> 0, hi |-> 0], 1) IN
               IF r.k = "ok" THEN Val(r.v) ELSE IF r.k = "dc" THEN Fail("dc") ELSE Fail(r.cls)
